@@ -405,8 +405,9 @@ def _norm(name):
 
 class MHeaders:
     """HTTPHeaders as documented: Http-Header-Case names, set replaces, add
-    appends; plus the observable quirk that deleting a name whose last
-    mutation was an ``add`` onto an existing name raises KeyError."""
+    appends; deleting a missing name raises KeyError.  (Before /repo commit
+    1c2830b deleting a name whose last mutation was an ``add`` onto an existing
+    name also raised KeyError; that defect is fixed and no longer modelled.)"""
 
     def __init__(self):
         self.d = {}
@@ -443,7 +444,7 @@ class MHeaders:
 
     def delete(self, name):
         n = _norm(name)
-        if n not in self.valid:
+        if n not in self.d:
             raise ModelRaise("KeyError")
         self.valid.discard(n)
         del self.d[n]
